@@ -493,7 +493,11 @@ Proof. exact adds_denote_l. Qed.
 Print Assumptions adds_denote.
 
 (* ... end to end through sqfs_serialize_fstree and the reader (ImgPost.pack_paths_roundtrip): what a reader sees of
-   the image tar2sqfs writes for ANY archive it accepts.  [compress] / [uncompress]: any pair meeting the metadata
+   the image tar2sqfs writes for any archive it accepts that has NO entry for the root directory ("./": such an entry is
+   not an add but set_root_attribs; process_tarball_is_adds / no_root_op exclude it — audit 3, W1.  For archives WITH
+   root entries see tar2sqfs_tree_with_root_entries, image_view_of_adds_rooted, tar_roundtrip_root_first and
+   tar2sqfs_rooted_image_reads_back in section "ImgTarFull" at the end of this file).
+   [compress] / [uncompress]: any pair meeting the metadata
    compressor contract; input_okb / attached_okb / trace_fits: the decidable bounds of pack_paths_roundtrip. *)
 Theorem image_view_of_adds : forall compress uncompress,
   (forall b c, compress b = Common.CData c -> Common.lenN c <= Common.lenN b /\ uncompress c = Some b) ->
@@ -830,4 +834,567 @@ Example ex_subdir_hyps :
   SubdirModel.subdir_selects [SubdirProofs.s_lib] [SubdirProofs.s_li] = false.
 Proof.
   repeat split; try discriminate; try (repeat constructor; discriminate).
+Qed.
+
+(* ============================================================================================================
+   ImgTarFull (session 3, builder E2) — C04's composed theorems from the metadata level to CONTENTS and XATTRS, and to
+   image BYTES.  Section "ImgTar" above left "the xattr list and the file contents of every entry of the new image"
+   assumed ([attach_all] took them from reimage_all).  coq/ImgTarFull composes
+     tar2sqfs  = process_tarball (ImgTar.pt_op_of) + copy_xattr (C01 xattr writer, in ARCHIVE order, unknown prefixes
+                 skipped, a key repeated in one PAX header: the latest record counts — fix F26) + write_file (C08 block
+                 processor, in ARCHIVE order, contents = what the tar file stream delivers: holes expanded) + C11 fstree /
+                 post_process + ImgXattr flush + Image.write_image                                      [t2s_full]
+     sqfs2tar  = the reader models on the image BYTES (ImgE2E.read_all: C05 tree / id / fragment readers, C10 data
+                 reader, xattr reader specification) + the walk with its hard link filter (ImgTar.s2t_go) + xattr
+                 lists and contents as read                                                           [sqfs2tar_full]
+   and proves, for archives in the shape sqfs2tar emits (tree_shapeb), that archive order is tree order
+   (shape_orders), hence t2s_full IS a run of ImgE2E.pack_all (tar2sqfs_is_pack_all) and pack_all_reads_back applies.
+   ============================================================================================================ *)
+From SqfsV Require C01.XattrModel C01.XattrProofs C01.XattrWriterProofs C05.RBase Image.FinishModel.
+From SqfsV Require ImgReader.Embed ImgReader.ReadImage.
+From SqfsV Require Import ImgE2E.PackAll ImgE2E.Hyps.
+From SqfsV Require Import ImgTarFull.Model ImgTarFull.XattrOrder ImgTarFull.Rooted ImgTarFull.Bridge ImgTarFull.ReadsBack ImgTarFull.RoundTrip
+  ImgTarFull.Checks ImgTarFull.Closed ImgTarFull.Example.
+
+(* ---- sparse files.  [sentry] = an entry as read_header decodes it (sparse map, record bytes, real size); [se_data] is
+   what the tar iterator's file stream delivers for it under EVERY consumer schedule, and that is what write_file hands to
+   the block processor ([te_of_se]); for a sorted map inside the file it is the hole expansion ---- *)
+Theorem sparse_contents_stream : forall sched s out' data' pos',
+  stream_go sched (se_sparse s) (e_size (se_e s)) 0 (se_record s) [] = S_Done out' data' pos' -> out' = se_data s.
+Proof. exact sparse_contents_stream_l. Qed.
+Print Assumptions sparse_contents_stream.
+
+Theorem sparse_contents_expand : forall s,
+  se_sparse s <> [] -> wf_map 0 (se_sparse s) (e_size (se_e s)) ->
+  map_bytes (se_sparse s) <= N.of_nat (length (se_record s)) ->
+  se_data s = expand 0 (se_sparse s) (se_record s) (e_size (se_e s)).
+Proof. exact sparse_contents_expand_l. Qed.
+Print Assumptions sparse_contents_expand.
+
+Theorem sparse_contents_plain : forall s,
+  se_sparse s = [] -> (N.to_nat (e_size (se_e s)) <= length (se_record s))%nat ->
+  se_data s = firstn (N.to_nat (e_size (se_e s))) (se_record s).
+Proof. exact sparse_contents_plain_l. Qed.
+
+Theorem te_of_se_data : forall s, te_data (te_of_se s) = if is_reg (e_mode (se_e s)) then se_data s else [].
+Proof. exact te_of_se_data_l. Qed.
+
+(* ---- the ORDER in which the image keeps the pairs of a node.  C01's refinement gives the SET; the model of
+   xattr_writer_record.c (begin, add_kv*, end: sort by key index << 32 | value index, de-duplication of blocks) computes,
+   for pairwise different keys, exactly C04's [store_xattrs]: old keys first in key table order, new keys in list order,
+   and the key table grows by the new keys — what reimage_all threads through the archive ---- *)
+Theorem xattr_writer_order : forall w xs,
+  XattrWriterProofs.winv w -> XattrWriterProofs.blen w -> Forall XattrWriterProofs.kv_ok xs ->
+  Res.nlen xs < 4294967296 -> NoDup (map fst xs) ->
+  exists w' idx, XattrModel.xw_set w xs = Res.Ok (w', idx) /\ XattrWriterProofs.winv w' /\ XattrWriterProofs.blen w' /\
+    XattrModel.x_keys w' = fst (store_xattrs (XattrModel.x_keys w) xs) /\
+    ((xs = [] /\ idx = XattrModel.NOIDX) \/
+     (xs <> [] /\ exists k blk, idx = N.of_nat k /\ nth_error (XattrModel.x_blocks w') k = Some blk /\
+                                XattrWriterProofs.kmap w' blk = snd (store_xattrs (XattrModel.x_keys w) xs))).
+Proof. exact xattr_writer_order_l. Qed.
+Print Assumptions xattr_writer_order.
+
+(* ... on a writer that already knows user.a, the decoded list [user.b; user.a] is stored [user.a; user.b] *)
+Example ex_xattr_writer_order :
+  match XattrModel.xw_set XattrModel.xw_empty [(fx_ka, [48])] with
+  | Res.Ok (w, _) =>
+      let xs := [(fx_kb, [50]); (fx_ka, [49])] in
+      forallb kv_okb xs = true /\
+      match XattrModel.xw_set w xs with
+      | Res.Ok (w', idx) =>
+          idx = 1 /\ XattrModel.x_keys w' = fst (store_xattrs (XattrModel.x_keys w) xs) /\
+          map (XattrWriterProofs.kmap w') (XattrModel.x_blocks w') = [[(fx_ka, [48])]; snd (store_xattrs (XattrModel.x_keys w) xs)] /\
+          snd (store_xattrs (XattrModel.x_keys w) xs) = [(fx_ka, [49]); (fx_kb, [50])]
+      | _ => False
+      end
+  | _ => False
+  end.
+Proof. exact fx_writer_order. Qed.
+
+(* tar2sqfs' copy_xattr (without --no-skip) is one begin / add_kv* / end on [xkept]: per key the element the latest
+   PAX record gave (fix F26), if SquashFS knows the prefix *)
+Theorem copy_xattr_is_set : forall w xs, copy_xattr false w xs = XattrModel.xw_set w (xkept xs).
+Proof. exact copy_xattr_is_set_l. Qed.
+
+Theorem xkept_meaning : forall xs,
+  NoDup (map fst (xkept xs)) /\
+  (forall x, In x (xkept xs) -> In x xs /\ xsupported x = true) /\
+  (Forall XattrWriterProofs.kv_ok xs -> NoDup (map fst xs) -> xkept xs = xs).
+Proof. exact xkept_meaning_l. Qed.
+Print Assumptions xkept_meaning.
+
+(* ---- archive order is tree order, and the bridge to ImgE2E.pack_all ---- *)
+Theorem shape_orders : forall d vs fs pp,
+  tree_shapeb vs = true ->
+  Bridge.run_adds d (FstreeModel.fs_init d) (adds_of_entries opts0 d vs) = Some fs ->
+  PostModel.post_process fs = PostModel.POk pp ->
+  PathsModel.all_paths [] (PostModel.pp_root pp) = [] :: map ent_path vs /\
+  PostModel.pp_files pp = map ent_path (filter (fun t => is_reg (t_mode t)) vs).
+Proof. exact shape_orders_l. Qed.
+Print Assumptions shape_orders.
+
+Theorem tar2sqfs_is_pack_all : forall no_tail_pack d hashf dcompress duncompress half mcompress limit cfg opts sched vs r,
+  tree_shapeb vs = true -> FinishModel.c_no_xattr cfg = false ->
+  t2s_full opts0 no_tail_pack false d hashf dcompress duncompress half mcompress limit cfg opts sched vs = PDone r ->
+  pack_all hashf dcompress duncompress half mcompress limit cfg (pi_of no_tail_pack cfg d opts sched vs) = PDone (with_root r).
+Proof. exact tar2sqfs_is_pack_all_l. Qed.
+Print Assumptions tar2sqfs_is_pack_all.
+
+(* ---- tar2sqfs_image_reads_back: the first sentence of C04 as a theorem about image BYTES.
+   Hypotheses: the oracle contracts of pack_all_reads_back (data / metadata compressor pairs, uc_meets, id table limit);
+   tree_shapeb (decidable shape of the archive); data_ok (the stream delivered as many bytes as the header announces);
+   the run succeeds and meets the decidable bounds of ImgE2E (e2e_okb on the corresponding pack_all input: field ranges,
+   supported keys of bounded size on what copy_xattr keeps, files < 2^31 - 1 bytes, image_fits, image < 2^63 bytes, ...);
+   loop bounds of the reader models.
+   Conclusion: read_all returns the root and then ONE ENTRY PER ARCHIVE ENTRY IN ARCHIVE ORDER with ([entry_back]): the
+   path, mode / owner / clamped time stamp / size / device number / symbolic link target of the inode ([item_ok]); the
+   inode of the entry itself or, for a hard link record, of the entry it names ([ent_at]); the contents of a regular file
+   = the bytes of that entry's stream; the pairs = [xkept] of that entry's list, as a set — and as the exact list in
+   stored order ([entry_back_x], [stored_at] = reimage_all's xattr lists) when every entry's keys are supported,
+   bounded and pairwise different (xattrs_ok); inode numbers tell the nodes apart (hard link groups = equal numbers) ---- *)
+Theorem tar2sqfs_image_reads_back :
+  forall (hashf : list N -> N)
+         (dcompress : list N -> option (list N)) (duncompress : list N -> nat -> option (list N)),
+  (forall b c, dcompress b = Some c ->
+     (length c < length b)%nat /\ forall n, (length b <= n)%nat -> duncompress c n = Some b) ->
+  forall (mcompress : list N -> Common.cres) (muncompress : list N -> option (list N)),
+  (forall b c, mcompress b = Common.CData c -> Common.lenN c <= Common.lenN b /\ muncompress c = Some b) ->
+  forall uc, Embed.uc_meets muncompress uc ->
+  forall limit, limit <= 65535 ->
+  forall half cfg no_tail_pack d opts sched vs r,
+  tree_shapeb vs = true -> Forall data_ok vs ->
+  t2s_full opts0 no_tail_pack false d hashf dcompress duncompress half mcompress limit cfg opts sched vs = PDone r ->
+  e2e_okb half cfg (pi_of no_tail_pack cfg d opts sched vs) (with_root r) = true ->
+  forall depth efuel fuel,
+  (e2e_depth r <= depth)%nat -> (e2e_efuel r <= efuel)%nat -> (e2e_fuel r <= fuel)%nat ->
+  let num := Bridge.ino_of (PostModel.pp_inodes (r_pp r)) in
+  exists e0 out,
+    read_all uc muncompress duncompress (FinishModel.image_bytes (r_w r)) depth efuel fuel = RBase.Ok (e0 :: out) /\
+    root_back d [] e0 /\
+    Forall2 (entry_back vs num) vs out /\
+    (forall p q, node_of vs p -> node_of vs q -> num p = num q -> p = q) /\
+    (xattrs_ok vs -> Forall2 (entry_back_x [] vs num) vs out).
+Proof. exact tar2sqfs_image_reads_back_l. Qed.
+Print Assumptions tar2sqfs_image_reads_back.
+
+(* ---- the same for an archive WITH an entry for the root directory in front ("./": what tar -C dir -c . writes; audit 3,
+   W1).  [root_entry_meaning]: the entry has the empty canonical name, is a directory and no hard link record.
+   process_tarball hands it to set_root_attribs (uid, gid, mode, mod_time of the root node; copy_xattr on the root node): on
+   the fresh tree that is fstree_init with the entry's attributes as defaults ([root_defaults]); an archive in sqfs2tar's
+   shape creates no directory implicitly, so nothing else reads the defaults (shape_no_implicit, tar2sqfs_tree_root_first),
+   and the run IS the run of pack_all with these defaults and the entry's pairs for the root
+   (tar2sqfs_rooted_is_pack_all).  Conclusion as above, and the root shows the ENTRY's mode / owner / time stamp / pairs
+   ([root_back]).  The stored order of the other entries' pairs starts from the key table the root's pairs leave. ---- *)
+Theorem root_entry_meaning : forall d t e, pt_op_of opts0 d t = PRootAttr e ->
+  t_name t = [] /\ t_hard t = false /\ mode_is_dir (t_mode t) = true /\
+  e = gent_of [] (te_e t) (clamp_mtime (e_mtime (te_e t))).
+Proof. exact root_entry_meaning_l. Qed.
+
+Theorem root_back_meaning : forall d rootx e0,
+  root_back d rootx e0 <->
+  re_path e0 = [] /\ re_data e0 = None /\
+  PathsModel.pv_mode (re_view e0) = Bridge.type_bits FstreeModel.FDir + FstreeModel.fd_perm d /\
+  PathsModel.pv_uid (re_view e0) = Some (FstreeModel.fd_uid d) /\ PathsModel.pv_gid (re_view e0) = Some (FstreeModel.fd_gid d) /\
+  PathsModel.pv_mtime (re_view e0) = FstreeModel.fd_mtime d /\
+  Permutation.Permutation (re_xattrs e0) rootx.
+Proof. intros. reflexivity. Qed.
+
+Theorem tar2sqfs_rooted_is_pack_all :
+  forall no_tail_pack d0 hashf dcompress duncompress half mcompress limit cfg opts sched t0 e0 vs r,
+  pt_op_of opts0 d0 t0 = PRootAttr e0 -> tree_shapeb vs = true -> FinishModel.c_no_xattr cfg = false ->
+  t2s_full opts0 no_tail_pack false d0 hashf dcompress duncompress half mcompress limit cfg opts sched (t0 :: vs) = PDone r ->
+  pack_all hashf dcompress duncompress half mcompress limit cfg
+           (pi_gen no_tail_pack cfg (root_defaults true d0 e0) opts sched (xkept (te_xattr t0)) vs) = PDone r.
+Proof. exact tar2sqfs_rooted_is_pack_all_l. Qed.
+Print Assumptions tar2sqfs_rooted_is_pack_all.
+
+Theorem tar2sqfs_rooted_image_reads_back :
+  forall (hashf : list N -> N)
+         (dcompress : list N -> option (list N)) (duncompress : list N -> nat -> option (list N)),
+  (forall b c, dcompress b = Some c ->
+     (length c < length b)%nat /\ forall n, (length b <= n)%nat -> duncompress c n = Some b) ->
+  forall (mcompress : list N -> Common.cres) (muncompress : list N -> option (list N)),
+  (forall b c, mcompress b = Common.CData c -> Common.lenN c <= Common.lenN b /\ muncompress c = Some b) ->
+  forall uc, Embed.uc_meets muncompress uc ->
+  forall limit, limit <= 65535 ->
+  forall half cfg no_tail_pack d0 opts sched t0 e0 vs r,
+  pt_op_of opts0 d0 t0 = PRootAttr e0 ->
+  tree_shapeb vs = true -> Forall data_ok vs ->
+  t2s_full opts0 no_tail_pack false d0 hashf dcompress duncompress half mcompress limit cfg opts sched (t0 :: vs) = PDone r ->
+  let d := root_defaults true d0 e0 in
+  let rootx := xkept (te_xattr t0) in
+  e2e_okb half cfg (pi_gen no_tail_pack cfg d opts sched rootx vs) r = true ->
+  forall depth efuel fuel,
+  (e2e_depth r <= depth)%nat -> (e2e_efuel r <= efuel)%nat -> (e2e_fuel r <= fuel)%nat ->
+  let num := Bridge.ino_of (PostModel.pp_inodes (r_pp r)) in
+  exists r0 out,
+    read_all uc muncompress duncompress (FinishModel.image_bytes (r_w r)) depth efuel fuel = RBase.Ok (r0 :: out) /\
+    root_back d rootx r0 /\
+    Forall2 (entry_back vs num) vs out /\
+    (forall p q, node_of vs p -> node_of vs q -> num p = num q -> p = q) /\
+    (xattrs_ok vs -> xset_ok rootx -> Forall2 (entry_back_x (fst (store_xattrs [] rootx)) vs num) vs out).
+Proof. exact tar2sqfs_rooted_image_reads_back_l. Qed.
+Print Assumptions tar2sqfs_rooted_image_reads_back.
+
+(* ---- root entries and the theorems of section "ImgTar" (audit 3, W1: process_tarball_is_adds, image_view_of_adds and
+   tar_roundtrip_view exclude them through no_root_op).
+   (a) For EVERY archive (root entries anywhere, any number; side conditions: no root entry that is a hard link / not a
+       directory — tar2sqfs fails on those — and every add is below the root — names are canonical): set_root_attribs
+       commutes with fstree_add_generic, so the tree is the tree of the adds with the root entries' attributes applied in
+       order (the last one wins).  This is process_tarball_is_adds without its side condition.
+   (b) Root entry in FRONT and no directory created implicitly (no_implicitb: every proper prefix of an added path was
+       added earlier; any sibling order — what tar writes; shape_no_implicit for sqfs2tar's shape): the tree is
+       run_adds d' (fs_init d') of the remaining adds with d' = the root entry's attributes as defaults, so
+       image_view_of_adds applies verbatim with d' (image_view_of_adds_rooted: spec_pview then gives the root the entry's
+       attributes) and the tie's function on the archive is the tie's function on the rest under d'
+       (tar_roundtrip_root_first, to which tar_roundtrip_view applies).
+   NOT covered at image level: a root entry together with implicitly created directories (root attributes from the entry,
+   implicit directories from the command line's defaults): ImgPost.pack_paths_roundtrip is stated for
+   run_adds d (fs_init d) with ONE d; (a) covers that case at tree level only. ---- *)
+Theorem tar2sqfs_tree_with_root_entries : forall o d vs,
+  forallb no_bad_root (pt_ops o d vs) = true -> forallb add_below_root (pt_ops o d vs) = true ->
+  tar2sqfs_tree o d vs =
+  option_map (apply_roots (o_keep_time o) (pt_ops o d vs))
+             (Bridge.run_adds d (FstreeModel.fs_init d) (adds_of_entries o d vs)).
+Proof. exact tar2sqfs_tree_with_root_entries_l. Qed.
+Print Assumptions tar2sqfs_tree_with_root_entries.
+
+Theorem tar2sqfs_tree_root_first : forall o d t e vs,
+  pt_op_of o d t = PRootAttr e ->
+  forallb no_root_op (pt_ops o d vs) = true -> no_implicitb (adds_of_entries o d vs) = true ->
+  let d' := root_defaults (o_keep_time o) d e in
+  tar2sqfs_tree o d (t :: vs) = Bridge.run_adds d' (FstreeModel.fs_init d') (adds_of_entries o d vs).
+Proof. exact tar2sqfs_tree_root_first_l. Qed.
+Print Assumptions tar2sqfs_tree_root_first.
+
+Theorem image_view_of_adds_rooted : forall compress uncompress,
+  (forall b c, compress b = Common.CData c -> Common.lenN c <= Common.lenN b /\ uncompress c = Some b) ->
+  forall limit, limit <= 65536 ->
+  forall bs o d t e vs fs pp fb xa img,
+  pt_op_of o d t = PRootAttr e ->
+  forallb no_root_op (pt_ops o d vs) = true ->
+  let ops := adds_of_entries o d vs in
+  let d' := root_defaults (o_keep_time o) d e in
+  no_implicitb ops = true -> ops_okb ops = true -> links_resolveb ops = true ->
+  InputOk.input_okb bs d' ops = true ->
+  tar2sqfs_tree o d (t :: vs) = Some fs ->
+  PostModel.post_process fs = PostModel.POk pp ->
+  InputOk.attached_okb bs fb xa pp = true ->
+  TreeModel.serialize_fstree compress limit (Bridge.to_img fb xa pp) = Res.Ok img ->
+  TreeModel.trace_fits img = true ->
+  exists lt fl,
+    TreeModel.read_tree uncompress bs (TreeModel.si_itbl img) (TreeModel.si_dtbl img) (TreeModel.si_ids img)
+                        (length (PostModel.pp_inodes pp)) (TreeModel.si_root img) = Some lt /\
+    PathsModel.flat_lt [] lt = map (PathsProofs.number (PostModel.pp_inodes pp)) fl /\
+    StronglySorted path_lt (map fst3 fl) /\
+    (forall p, In p (map fst3 fl) <-> p = [] \/ in_closure p ops) /\
+    Forall (fun x => let '(p, v, id) := x in
+                     spec_resolve (S (length ops)) ops p = Some id /\ v = spec_pview fb xa d' ops id) fl /\
+    (forall x y, In x fl -> In y fl ->
+       Bridge.ino_of (PostModel.pp_inodes pp) (snd x) = Bridge.ino_of (PostModel.pp_inodes pp) (snd y) -> snd x = snd y).
+Proof. exact image_view_of_adds_rooted_l. Qed.
+Print Assumptions image_view_of_adds_rooted.
+
+Theorem tar_roundtrip_root_first : forall o d nl t e vs,
+  pt_op_of o d t = PRootAttr e ->
+  forallb no_root_op (pt_ops o d vs) = true -> no_implicitb (adds_of_entries o d vs) = true ->
+  tar_roundtrip_entries o d nl (t :: vs) = tar_roundtrip_entries o (root_defaults (o_keep_time o) d e) nl vs.
+Proof. exact tar_roundtrip_root_first_l. Qed.
+Print Assumptions tar_roundtrip_root_first.
+
+Theorem shape_no_implicit : forall d vs, tree_shapeb vs = true -> no_implicitb (adds_of_entries opts0 d vs) = true.
+Proof. exact shape_no_implicit_l. Qed.
+
+Theorem entry_back_meaning : forall vs num t e,
+  entry_back vs num t e <->
+  exists id u,
+    item_ok t (re_path e, re_view e, id) /\ re_ino e = num id /\
+    ent_at vs id = Some u /\ t_hard u = false /\ (t_hard t = false -> u = t) /\
+    re_data e = (if is_reg (t_mode u) then Some (te_data u) else None) /\
+    Permutation.Permutation (re_xattrs e) (xkept (te_xattr u)).
+Proof. exact entry_back_meaning_l. Qed.
+
+Theorem entry_back_x_meaning : forall tbl0 vs num t e,
+  entry_back_x tbl0 vs num t e <->
+  exists id u,
+    item_ok t (re_path e, re_view e, id) /\ re_ino e = num id /\
+    ent_at vs id = Some u /\ t_hard u = false /\ (t_hard t = false -> u = t) /\
+    re_data e = (if is_reg (t_mode u) then Some (te_data u) else None) /\
+    re_xattrs e = stored_at tbl0 vs id.
+Proof. exact entry_back_x_meaning_l. Qed.
+
+(* [stored_at tbl0] is the xattr list C04's reimage_all gives the entry of that name, started from the key table tbl0 *)
+Theorem stored_at_is_reimage : forall tbl0 vs k t, NoDup (map ent_path vs) -> nth_error vs k = Some t ->
+  exists r, nth_error (reimage_all tbl0 vs) k = Some r /\ te_xattr r = stored_at tbl0 vs (ent_path t).
+Proof. exact stored_at_is_reimage_l. Qed.
+Print Assumptions stored_at_is_reimage.
+
+(* ---- conv_roundtrip_full: sqfs2tar's entries for that image — INCLUDING xattr lists and contents, read from the image
+   bytes — are reimage_all of the archive ([feq]: meq on the header fields, the xattr list unless it is a hard link record,
+   the contents of a regular file): what reimage_is_theorem took from reimage_all itself is discharged ---- *)
+Theorem conv_roundtrip_full :
+  forall (hashf : list N -> N)
+         (dcompress : list N -> option (list N)) (duncompress : list N -> nat -> option (list N)),
+  (forall b c, dcompress b = Some c ->
+     (length c < length b)%nat /\ forall n, (length b <= n)%nat -> duncompress c n = Some b) ->
+  forall (mcompress : list N -> Common.cres) (muncompress : list N -> option (list N)),
+  (forall b c, mcompress b = Common.CData c -> Common.lenN c <= Common.lenN b /\ muncompress c = Some b) ->
+  forall uc, Embed.uc_meets muncompress uc ->
+  forall limit, limit <= 65535 ->
+  forall half cfg no_tail_pack d opts sched vs r depth efuel fuel,
+  tree_shapeb vs = true -> Forall data_ok vs -> xattrs_ok vs ->
+  t2s_full opts0 no_tail_pack false d hashf dcompress duncompress half mcompress limit cfg opts sched vs = PDone r ->
+  e2e_okb half cfg (pi_of no_tail_pack cfg d opts sched vs) (with_root r) = true ->
+  (e2e_depth r <= depth)%nat -> (e2e_efuel r <= efuel)%nat -> (e2e_fuel r <= fuel)%nat ->
+  exists out,
+    sqfs2tar_full uc muncompress duncompress false false (FinishModel.image_bytes (r_w r)) depth efuel fuel = S2Ok out /\
+    Forall2 feq out (reimage_all [] vs) /\
+    write_archive out = write_archive (reimage_all [] vs).
+Proof. exact conv_roundtrip_full_l. Qed.
+(* Print Assumptions: conv_roundtrip_full and conv_fixpoint_full are lemmas of the proof of conv_second_round_full, printed below *)
+
+(* ---- conv_fixpoint_full: conv_fixpoint_composed with NO component assumed.  sqfs2tar's archive of the listing [es],
+   read by the tar iterator, packed by the composed tar2sqfs into image BYTES, read back by the reader models and walked
+   by sqfs2tar's iterators with xattrs and contents attached as read, is written as the same archive, byte for byte ---- *)
+Theorem conv_fixpoint_full :
+  forall (hashf : list N -> N)
+         (dcompress : list N -> option (list N)) (duncompress : list N -> nat -> option (list N)),
+  (forall b c, dcompress b = Some c ->
+     (length c < length b)%nat /\ forall n, (length b <= n)%nat -> duncompress c n = Some b) ->
+  forall (mcompress : list N -> Common.cres) (muncompress : list N -> option (list N)),
+  (forall b c, mcompress b = Common.CData c -> Common.lenN c <= Common.lenN b /\ muncompress c = Some b) ->
+  forall uc, Embed.uc_meets muncompress uc ->
+  forall limit, limit <= 65535 ->
+  forall half cfg no_tail_pack d opts sched es r depth efuel fuel,
+  Forall entry_ok es -> Forall img_shape es -> settled [] es ->
+  let vs := views es in
+  tree_shapeb vs = true -> xattrs_ok vs ->
+  t2s_full opts0 no_tail_pack false d hashf dcompress duncompress half mcompress limit cfg opts sched vs = PDone r ->
+  e2e_okb half cfg (pi_of no_tail_pack cfg d opts sched vs) (with_root r) = true ->
+  (e2e_depth r <= depth)%nat -> (e2e_efuel r <= efuel)%nat -> (e2e_fuel r <= fuel)%nat ->
+  read_archive (write_archive es) = RA_Ok vs /\
+  exists out,
+    sqfs2tar_full uc muncompress duncompress false false (FinishModel.image_bytes (r_w r)) depth efuel fuel = S2Ok out /\
+    write_archive out = write_archive es.
+Proof. exact conv_fixpoint_full_l. Qed.
+
+(* ... and from ANY listing after one round (round_one establishes entry_ok, img_shape, settled) *)
+Theorem conv_second_round_full :
+  forall (hashf : list N -> N)
+         (dcompress : list N -> option (list N)) (duncompress : list N -> nat -> option (list N)),
+  (forall b c, dcompress b = Some c ->
+     (length c < length b)%nat /\ forall n, (length b <= n)%nat -> duncompress c n = Some b) ->
+  forall (mcompress : list N -> Common.cres) (muncompress : list N -> option (list N)),
+  (forall b c, mcompress b = Common.CData c -> Common.lenN c <= Common.lenN b /\ muncompress c = Some b) ->
+  forall uc, Embed.uc_meets muncompress uc ->
+  forall limit, limit <= 65535 ->
+  forall half cfg no_tail_pack d opts sched es r depth efuel fuel,
+  Forall entry_ok es -> Forall short_name es ->
+  let es1 := reimage_all [] (views es) in
+  let vs := views es1 in
+  tree_shapeb vs = true -> xattrs_ok vs ->
+  t2s_full opts0 no_tail_pack false d hashf dcompress duncompress half mcompress limit cfg opts sched vs = PDone r ->
+  e2e_okb half cfg (pi_of no_tail_pack cfg d opts sched vs) (with_root r) = true ->
+  (e2e_depth r <= depth)%nat -> (e2e_efuel r <= efuel)%nat -> (e2e_fuel r <= fuel)%nat ->
+  convert es = RA_Ok es1 /\
+  read_archive (write_archive es1) = RA_Ok vs /\
+  exists out,
+    sqfs2tar_full uc muncompress duncompress false false (FinishModel.image_bytes (r_w r)) depth efuel fuel = S2Ok out /\
+    write_archive out = write_archive es1.
+Proof. exact conv_second_round_full_l. Qed.
+Print Assumptions conv_second_round_full.
+
+(* ... on BYTES: [conv_round] = tar iterator -> t2s_full -> image bytes -> sqfs2tar_full -> write_archive; sqfs2tar's
+   archive of such a listing is a fixpoint *)
+Theorem conv_round_fixpoint :
+  forall (hashf : list N -> N)
+         (dcompress : list N -> option (list N)) (duncompress : list N -> nat -> option (list N)),
+  (forall b c, dcompress b = Some c ->
+     (length c < length b)%nat /\ forall n, (length b <= n)%nat -> duncompress c n = Some b) ->
+  forall (mcompress : list N -> Common.cres) (muncompress : list N -> option (list N)),
+  (forall b c, mcompress b = Common.CData c -> Common.lenN c <= Common.lenN b /\ muncompress c = Some b) ->
+  forall limit, limit <= 65535 ->
+  forall half cfg d opts sched es r,
+  Forall entry_ok es -> Forall img_shape es -> settled [] es ->
+  let vs := views es in
+  tree_shapeb vs = true -> xattrs_ok vs ->
+  t2s_full opts0 false false d hashf dcompress duncompress half mcompress limit cfg opts sched vs = PDone r ->
+  e2e_okb half cfg (pi_of false cfg d opts sched vs) (with_root r) = true ->
+  exists out,
+    conv_round hashf dcompress duncompress half mcompress muncompress limit cfg opts sched d (write_archive es)
+    = RoundOk (FinishModel.image_bytes (r_w r)) out (write_archive es).
+Proof. exact conv_round_fixpoint_l. Qed.
+Print Assumptions conv_round_fixpoint.
+
+(* the boolean forms used below are sound *)
+Theorem full_checkers_sound : forall vs,
+  (xattrs_okb vs = true -> xattrs_ok vs) /\ (forallb data_okb vs = true -> Forall data_ok vs).
+Proof. intro vs. split; [exact (xattrs_okb_sound vs)|exact (data_okb_sound vs)]. Qed.
+
+(* ---- non-vacuity.  fx_ss:  d/ (user.a)   d/f "hello" (decoded list user.b, user.a)   d/h => d/f   d/s SPARSE (size 10,
+   map (0,3) (6,4): one hole)   l -> d/f.  The sparse entry's stream is the hole expansion ... ---- *)
+Example ex_full_sparse :
+  match nth_error fx_ss 3 with
+  | Some s =>
+      se_data s = [1; 2; 3; 0; 0; 0; 4; 5; 6; 7] /\
+      se_data s = expand 0 (se_sparse s) (se_record s) (e_size (se_e s)) /\
+      wf_map 0 (se_sparse s) (e_size (se_e s))
+  | None => False
+  end.
+Proof. exact fx_sparse. Qed.
+
+(* ... every decidable hypothesis of tar2sqfs_image_reads_back / conv_roundtrip_full holds (toy compressors of
+   ImgE2E.Example, whose contracts are ex_e2e_contracts in Properties_C01.v) ... *)
+Example ex_full_hyps :
+  tree_shapeb fx_vs = true /\ forallb data_okb fx_vs = true /\ xattrs_okb fx_vs = true /\
+  match fx_t2s fx_vs with
+  | PDone r => fx_okb fx_vs r = true
+  | _ => False
+  end.
+Proof. exact fx_hyps. Qed.
+
+(* ... the reader models return from the image bytes: paths, inode numbers (d/f and d/h share one), modes, contents with
+   the hole expanded, xattr lists in stored order (user.a in front of user.b for d/f: the key table has it from d/) ... *)
+Example ex_full_back :
+  match fx_t2s fx_vs with
+  | PDone r =>
+      match fx_read r with
+      | RBase.Ok out =>
+          map (fun e => (re_path e, re_ino e, PathsModel.pv_mode (re_view e), re_data e, re_xattrs e)) out =
+          [ ([], 5, 16877, None, []);
+            ([[100]], 3, 16877, None, [(fx_ka, [48])]);
+            ([[100]; [102]], 1, 33188, Some fx_hello, [(fx_ka, [49]); (fx_kb, [50])]);
+            ([[100]; [104]], 1, 33188, Some fx_hello, [(fx_ka, [49]); (fx_kb, [50])]);
+            ([[100]; [115]], 2, 33188, Some [1; 2; 3; 0; 0; 0; 4; 5; 6; 7], []);
+            ([[108]], 4, 41471, None, []) ]
+      | _ => False
+      end
+  | _ => False
+  end.
+Proof. exact fx_back. Qed.
+
+(* ... sqfs2tar's entries for it; they meet every hypothesis of conv_fixpoint_full; and one more round of the composed
+   tools on the BYTES of that archive reproduces it: second round = fixpoint *)
+Example ex_full_second_round :
+  match fx_t2s fx_vs with
+  | PDone r =>
+      match fx_s2t r with
+      | S2Ok es =>
+          map (fun t => (e_name (te_e t), e_hardlink (te_e t), te_target t, te_xattr t, te_data t)) es =
+          [ ([100; 47], false, None, [(fx_ka, [48])], []);
+            (fx_f, false, None, [(fx_ka, [49]); (fx_kb, [50])], fx_hello);
+            (fx_h, true, Some fx_f, [(fx_ka, [49]); (fx_kb, [50])], []);
+            (fx_s, false, None, [], [1; 2; 3; 0; 0; 0; 4; 5; 6; 7]);
+            (fx_l, false, Some fx_f, [], []) ] /\
+          forallb entry_okb es && forallb img_shapeb es && settledb [] es = true /\
+          tree_shapeb (views es) = true /\ xattrs_okb (views es) = true /\
+          match fx_t2s (views es) with
+          | PDone r2 => fx_okb (views es) r2 = true
+          | _ => False
+          end /\
+          match fx_round (write_archive es) with
+          | RoundOk img2 es2 tar2 => tar2 = write_archive es /\ es2 = es
+          | _ => False
+          end
+      | _ => False
+      end
+  | _ => False
+  end.
+Proof. exact fx_second_round. Qed.
+
+(* ---- corners ---- *)
+(* FINDING F26: a PAX header that repeats a keyword (SCHILY.xattr.user.a = 1, then = 2; POSIX pax, GNU tar, Python tarfile:
+   the later record counts).  The reader prepends (decoded [a=2; a=1]); the unrepaired copy_xattr added both and the xattr
+   writer's later add replaced the value: the image held the FIRST record's "1".  Repaired: "2".  Reproduced with the real
+   tools; props/C04/fixes/F26-duplicate-xattr-key-first-record-wins.patch *)
+Example dup_xattr_key_first_record_wins_refuted :
+  match read_archive fx_dup_archive with
+  | RA_Ok [t] =>
+      te_xattr t = [(fx_ka, [50]); (fx_ka, [49])] /\
+      match copy_xattr_old false XattrModel.xw_empty (te_xattr t) with
+      | Res.Ok (w, idx) => idx = 0 /\ map (XattrWriterProofs.kmap w) (XattrModel.x_blocks w) = [[(fx_ka, [49])]]
+      | _ => False
+      end /\
+      match copy_xattr false XattrModel.xw_empty (te_xattr t) with
+      | Res.Ok (w, idx) => idx = 0 /\ map (XattrWriterProofs.kmap w) (XattrModel.x_blocks w) = [[(fx_ka, [50])]]
+      | _ => False
+      end /\
+      fx_xattrs_of [t] = Some [([102], [(fx_ka, [50])])]
+  | _ => False
+  end.
+Proof. exact fx_dup_key_refuted. Qed.
+
+(* xattrs on a hard link RECORD are not stored (the record is a second name of the inode and shows its pairs) but their
+   keys enter the key table and move the pairs of later entries: [c; a] stored as [a; c] instead of [c; a] *)
+Example hard_link_record_xattrs_dropped :
+  fx_xattrs_of (fx_hl_archive [(fx_ka, [57])]) =
+    Some [([102], [(fx_kb, [49])]); ([104], [(fx_kb, [49])]); ([105], [(fx_ka, [51]); (fx_kc, [50])])] /\
+  fx_xattrs_of (fx_hl_archive []) =
+    Some [([102], [(fx_kb, [49])]); ([104], [(fx_kb, [49])]); ([105], [(fx_kc, [50]); (fx_ka, [51])])].
+Proof. exact fx_hard_link_record_xattrs. Qed.
+
+(* a key with a prefix SquashFS does not know is dropped (with a warning); with --no-skip tar2sqfs fails *)
+Example foreign_xattr_prefix_dropped :
+  fx_xattrs_of fx_foreign = Some [([102], [(fx_ka, [50])])] /\
+  match t2s_full opts0 false true fx_d0 DedupTheorems.const_hash DedupModel.toy_compress DedupModel.toy_uncompress fx_half
+                 (TreeModel.img_compress 3) GenC01.c_id_table_limit fx_cfg [] [0%nat; 0%nat] fx_foreign with
+  | PXattrErr _ => True
+  | _ => False
+  end.
+Proof. exact fx_foreign_prefix_dropped. Qed.
+
+(* ---- an archive WITH its root entry in front ("./" 0700, uid 7, gid 8, mtime 5, user.c): every hypothesis of
+   tar2sqfs_rooted_image_reads_back holds and the root comes back with the ENTRY's attributes and pairs ---- *)
+Example ex_full_rooted :
+  pt_op_of opts0 fx_d0 fx_root = PRootAttr fx_root_gent /\
+  tree_shapeb fx_vs = true /\ forallb data_okb fx_vs = true /\ xattrs_okb fx_vs = true /\ xset_okb fx_rootx = true /\
+  match fx_t2s (fx_root :: fx_vs) with
+  | PDone r =>
+      fx_okb_rooted r = true /\
+      match fx_read r with
+      | RBase.Ok out =>
+          map (fun e => (re_path e, PathsModel.pv_mode (re_view e), PathsModel.pv_uid (re_view e), PathsModel.pv_gid (re_view e),
+                         PathsModel.pv_mtime (re_view e), re_xattrs e)) out =
+          [ ([], 16832, Some 7, Some 8, 5, [(fx_kc, [57])]);
+            ([[100]], 16877, Some 0, Some 0, 1600000000, [(fx_ka, [48])]);
+            ([[100]; [102]], 33188, Some 1000, Some 100, 1600000001, [(fx_ka, [49]); (fx_kb, [50])]);
+            ([[100]; [104]], 33188, Some 1000, Some 100, 1600000001, [(fx_ka, [49]); (fx_kb, [50])]);
+            ([[100]; [115]], 33188, Some 0, Some 0, 5, []);
+            ([[108]], 41471, Some 0, Some 0, 7, []) ]
+      | _ => False
+      end
+  | _ => False
+  end.
+Proof. exact fx_rooted. Qed.
+
+Theorem xset_okb_is_sound : forall s, xset_okb s = true -> xset_ok s.
+Proof. exact xset_okb_sound. Qed.
+
+(* the auditor's archive (S7.v: root entry with uid 7, then a file): excluded by no_root_op, inside
+   tar2sqfs_tree_with_root_entries and tar2sqfs_tree_root_first; the tree has the root entry's owner *)
+Example ex_root_entry_tree :
+  forallb no_root_op (pt_ops opts0 fx_d0 fx_audit_rooted) = false /\
+  forallb no_bad_root (pt_ops opts0 fx_d0 fx_audit_rooted) = true /\
+  forallb add_below_root (pt_ops opts0 fx_d0 fx_audit_rooted) = true /\
+  no_implicitb (adds_of_entries opts0 fx_d0 (tl fx_audit_rooted)) = true /\
+  match tar2sqfs_tree opts0 fx_d0 fx_audit_rooted,
+        Bridge.run_adds fx_d0 (FstreeModel.fs_init fx_d0) (adds_of_entries opts0 fx_d0 fx_audit_rooted) with
+  | Some fs, Some fs' =>
+      FstreeModel.a_uid (FstreeModel.node_attr (FstreeModel.fs_root fs)) = 7 /\
+      FstreeModel.a_uid (FstreeModel.node_attr (FstreeModel.fs_root fs')) = 0 /\
+      fs = apply_roots true (pt_ops opts0 fx_d0 fx_audit_rooted) fs'
+  | _, _ => False
+  end.
+Proof. exact fx_audit_root_entry. Qed.
+
+(* ---- audit 3, EXAMPLE-GAP G2: the hypotheses of subdir_keep_as_dir together (-k -d lib; -d lib/lib -d lib64/a) ---- *)
+Example ex_subdir_keep_hyps :
+  let subs1 := [[SubdirProofs.s_lib]] in
+  let subs2 := [[SubdirProofs.s_lib; SubdirProofs.s_lib]; [SubdirProofs.s_lib64; SubdirProofs.s_a]] in
+  subs1 <> [] /\ Forall SubdirProofs.wfp subs1 /\ SubdirModel.strip_of (map CanonSpec.join subs1) true = None /\
+  subs2 <> [] /\ Forall SubdirProofs.wfp subs2 /\ SubdirModel.strip_of (map CanonSpec.join subs2) false = None /\
+  SubdirProofs.wfp [SubdirProofs.s_lib; SubdirProofs.s_a].
+Proof.
+  cbv zeta. repeat split; try discriminate; try reflexivity;
+    repeat (constructor; try (split; [discriminate|]); try (repeat constructor; discriminate)).
 Qed.
